@@ -76,6 +76,19 @@ func c01Scenarios(tier string) []*Scenario {
 		sc.Check = func(w *World) []Violation { return g.checkLaunchGating(w.pre()) }
 		sc.TickBudget = 2
 		scs = append(scs, sc)
+		// the same dependency is stopped / restarted by hand while it waits out its back-off (Restarting)
+		for _, op := range []string{"stop", "restart"} {
+			a2 := a
+			sc := graphScenario("c01-retry", []GNode{a2, b}, k)
+			sc.ID += "-" + op + "-in-backoff"
+			sc.Procs["a"].Launches = append([][]Action{{Exit(1)}}, sc.Procs["a"].Launches...)
+			restarting := func(w *World) bool { return w.lastStat["a"] == "Restarting" }
+			sc.API = [][]APICall{{{Op: op, Name: "a", When: restarting}}}
+			g := newGcfg([]GNode{a2, b})
+			sc.Check = func(w *World) []Violation { return g.checkLaunchGating(w.pre()) }
+			sc.TickBudget = 3
+			scs = append(scs, sc)
+		}
 	}
 	// two edges on three processes: chain, fan-in, fan-out
 	conds2 := allConds
